@@ -56,7 +56,7 @@ func executeBytecodePromise(thread *Thread, queue chan *Promise, task *Promise) 
 
 	switch thread.state {
 	case awaitState:
-		awaitedPromise := (*Promise)(thread.peek().Pointer())
+		awaitedPromise := (*Promise)(thread.popGet().Pointer())
 		awaitedPromise.RegisterContinuationUnsafe(task)
 
 		// promise has been locked in the VM
